@@ -206,7 +206,10 @@ void gen_graph(Rng& rng, const GenProfile& p, Registry& r) {
     static const char* names[] = {"chain",  "tree",      "diamonds", "ladder", "crown",
                                   "product", "manybases", "dag",      "treejoin", "union"};
     int kind;
-    if (p.lattice_bias) {
+    if (p.big) {
+        static const int k[] = {1, 7, 8, 8};
+        kind = k[rng.below(4)];
+    } else if (p.lattice_bias) {
         static const int k[] = {2, 3, 4, 5, 6, 7, 7, 8, 8, 9};
         kind = k[rng.below(10)];
     } else {
@@ -240,7 +243,7 @@ void gen_graph(Rng& rng, const GenProfile& p, Registry& r) {
             g_manybases(rng, r, std::max(2, std::min(8, budget - 1)));
             break;
         case 7:
-            g_dag(rng, r, budget, rng.range(10, 60));
+            g_dag(rng, r, budget, p.big ? rng.range(2, 5) : rng.range(10, 60));
             break;
         case 8:
             g_tree_join(rng, r, std::max(2, budget - 2));
@@ -299,6 +302,10 @@ void gen_methods(Rng& rng, const GenProfile& p, Registry& r, const Oracle& o) {
         do {
             m.shape = allowed[rng.below(allowed.size())];
             m.inst = (int)rng.below(NINST);
+            if (p.big && k < 2) { // the two method objects that have MAXDEF_BIG bodies
+                m.shape = k == 0 ? 0 : 6;
+                m.inst = 0;
+            }
         } while (used.count({m.shape, m.inst}) && ++tries < 50);
         if (used.count({m.shape, m.inst}))
             break;
@@ -310,8 +317,9 @@ void gen_methods(Rng& rng, const GenProfile& p, Registry& r, const Oracle& o) {
             double prod = 1;
             for (int i = 0; i < ar; ++i) {
                 int c = (int)rng.below(r.n);
-                // bias toward roots for wide coverage
-                if (rng.chance(1, 2))
+                // bias toward roots for wide coverage (big registries: almost always, so that one
+                // v-table gets more than 64 slots)
+                if (rng.chance(p.big ? 9 : 1, p.big ? 10 : 2))
                     while (!r.bases[c].empty())
                         c = r.bases[c][rng.below(r.bases[c].size())];
                 m.vp.push_back(c);
@@ -325,7 +333,9 @@ void gen_methods(Rng& rng, const GenProfile& p, Registry& r, const Oracle& o) {
         }
         int nd = (int)rng.below(p.max_defs + 1);
         int style = (int)rng.below(4);
-        for (int d = 0; d < nd && d < MAXDEF; ++d) {
+        if (p.big && max_defs_of(m.shape, m.inst) == MAXDEF_BIG)
+            nd = rng.range(MAXDEF_BIG - 8, MAXDEF_BIG); // more than 64 definitions: masks wider than a word
+        for (int d = 0; d < nd && d < max_defs_of(m.shape, m.inst); ++d) {
             Def def;
             for (int i = 0; i < ar; ++i) {
                 auto acc = o.acceptable(m, i);
@@ -469,20 +479,20 @@ void gen_presentation(Rng& rng, Registry& r, const Oracle& o, int kind) {
     }
     rng.shuffle(r.records);
     while ((int)r.records.size() > MAXREC)
-        r.records.pop_back(); // cannot happen with MAXC=48 and <=4 records per class
+        r.records.pop_back(); // cannot happen: <= 4 records per class
 }
 
-// 64 distinct real type_info objects
+// 128 distinct real type_info objects
 template<int... I>
 static void fill_tag_ids(type_id* out, std::integer_sequence<int, I...>) {
     ((out[I] = reinterpret_cast<type_id>(&typeid(Tag<I>))), ...);
 }
 
 static type_id* tag_ids() {
-    static type_id ids[64];
+    static type_id ids[128];
     static bool done = false;
     if (!done) {
-        fill_tag_ids(ids, std::make_integer_sequence<int, 64>());
+        fill_tag_ids(ids, std::make_integer_sequence<int, 128>());
         done = true;
     }
     return ids;
@@ -497,7 +507,7 @@ void assign_ids(Rng& rng, Registry& r, int flavour, int aliases) {
     r.ids.assign(r.n, {});
     r.idflavour = idflavour_name(flavour);
     std::vector<int> perm;
-    for (int i = 0; i < 64; ++i)
+    for (int i = 0; i < 128; ++i)
         perm.push_back(i);
     rng.shuffle(perm);
     uint64_t base = rng.next() >> 8;
@@ -521,7 +531,7 @@ void assign_ids(Rng& rng, Registry& r, int flavour, int aliases) {
                 break;
             }
             case 1:
-                id = tag_ids()[perm[(c + a * MAXC) % 64]];
+                id = tag_ids()[perm[(c + a * MAXC) % 128]];
                 break;
             case 2:
                 id = base + ((uint64_t)(c * MAXALIAS + a) << j);
@@ -538,7 +548,7 @@ void assign_ids(Rng& rng, Registry& r, int flavour, int aliases) {
                 id = ((base + (uint64_t)c * 977) << 2) | (uint64_t)a;
                 break;
             case 6: // small integers: (a permutation of the classes) * 4 + alias
-                id = ((uint64_t)perm[c % 64] << 2) | (uint64_t)a;
+                id = ((uint64_t)perm[c % 128] << 2) | (uint64_t)a;
                 break;
             }
             if (seen.count(id)) { // keep ids unique per class
